@@ -66,6 +66,16 @@ fn determinism(c: &Case, pools: &[usize]) -> CaseResult {
         ensure!(vk.to_bytes(SerdeFormat::RawBytes) == vk_r, "keygen:vk-bytes-differ-across-pools", "pool {t}: vk bytes (RawBytes) differ; spec={spec:?}");
         ensure!(vk.transcript_repr() == vk0.transcript_repr(), "keygen:transcript-repr-differs", "pool {t}; spec={spec:?}");
         ensure!(pk.to_bytes(SerdeFormat::RawBytes) == pk_r, "keygen:pk-bytes-differ-across-pools", "pool {t}: pk bytes differ; spec={spec:?}");
+        // interchangeable: the key generated under this pool proves statements the
+        // reference verifying key accepts (parts of a proving key are not serialised,
+        // so equal bytes do not imply this), and a pk reloaded under this pool as well
+        let proof = prove_with(&pk, &spec, c.wseed)?;
+        ensure!(verify_with(&vk0, &spec, c.wseed, &proof), "keygen:pk-of-pool-proves-rejected-proofs", "pool {t}: proof made with the pk generated under this pool is rejected by the reference vk; spec={spec:?}");
+        let pk_re = in_pool(t, || ProvingKey::<F, CS>::from_bytes::<GenCircuit>(&pk_r, SerdeFormat::RawBytes, spec.clone())).map_err(|e| Failure::new("pk-read-fails:in-pool", format!("{e}")))?;
+        let proof = prove_with(&pk_re, &spec, c.wseed ^ 2)?;
+        ensure!(verify_with(&vk0, &spec, c.wseed ^ 2, &proof), "keygen:pk-reloaded-in-pool-proves-rejected-proofs", "pool {t}: proof made with a pk reloaded under this pool is rejected by the reference vk; spec={spec:?}");
+        let proof = in_pool(t, || prove_with(&pk0, &spec, c.wseed ^ 3))?;
+        ensure!(in_pool(t, || verify_with(&vk0, &spec, c.wseed ^ 3, &proof)), "prove-verify-in-pool-fails", "pool {t}: proving/verifying inside this pool fails; spec={spec:?}");
     }
     // keygen with a witness present gives the same key as without (structure is witness independent)
     {
@@ -206,7 +216,7 @@ fn params_check(c: &ParamsCase) -> CaseResult {
 fn main() {
     vpcore::main("C17", "exploration", (1800, 10800), |p| {
         p.assume("thread schedules are explored only through rayon pool sizes {1,2,3,8,16}");
-        let pools: Vec<usize> = if p.quick() { vec![1, 3, 16] } else { vec![1, 2, 3, 5, 8, 16] };
+        let pools: Vec<usize> = if p.quick() { vec![1, 3, 5, 16] } else { vec![1, 2, 3, 5, 8, 16] };
         p.sub_cfg(
             "keygen.determinism",
             "E1 specs: keygen repeated under rayon pools of different sizes gives byte-identical vk/pk and transcript representative, with and without a witness; non-trivial = spec has copy constraints and a lookup",
